@@ -4,7 +4,17 @@ ID = 'C20'
 MODS = ['contracts.c_externs', 'contracts.c_utils', 'contracts.c_shell']
 FUNCS = ['yalafi.shell.checks.create_context',
          'yalafi.shell.checks.create_message',
-         'yalafi.shell.checks.create_single_letter_matches.<locals>.f']
+         'yalafi.shell.checks.create_single_letter_matches.<locals>.f',
+         # the shell's own messages are shifted like those of the
+         # proofreader when the text was split into parts
+         'yalafi.shell.proofreader.run_proofreader_options']
+
+
+def SELECT(name):
+    if 'run_proofreader_options' in name:
+        return 'offset-shift' in name or 'offset-shifted' in name
+    return True
+
 def accept_list_bounded(seed):
     """the start-up statements of shell.py that expand a trailing `||` of
     --single-letters into the placeholder collections (module level, lifted
@@ -75,7 +85,12 @@ def accept_list_bounded(seed):
             'evaluations': n, 'failures': fails[:3]}
 
 
-QUICK_BOUNDED = [accept_list_bounded]
+def _single_letters(seed):
+    from props import bounded
+    return bounded.c20_single_letters(seed)
+
+
+QUICK_BOUNDED = [accept_list_bounded, _single_letters]
 
 TRUSTED = ['assumed contract of re.Match: 0 <= start <= end <= len(string), group(0) == string[start:end]',
            'str.replace of one character by one character is a character-wise map (pyvc/builtins.py)']
@@ -84,7 +99,7 @@ ASSUMPTIONS = ['the expansion of a trailing || of --single-letters (module-level
                'regex semantics and not decided by a contract']
 LEVEL_TEXT = ('Deductive proof of the offset/length/context arithmetic: create_message reports offset == start and length == '
     'len(match); create_context returns an excerpt in which text[offset\':offset\'+length\'] are exactly the flagged characters '
-    '(TAB/NL blanked) and the marker never runs past the excerpt, for all texts, offsets and lengths; the cover test of --single-letters (inner function f) returns True exactly when the start of the letter lies in [beg, end) of some hit (loop invariant over the hit list as ghost arrays). Which characters the '
+    '(TAB/NL blanked) and the marker never runs past the excerpt, for all texts, offsets and lengths; the cover test of --single-letters (inner function f) returns True exactly when the start of the letter lies in [beg, end) of some hit (loop invariant over the hit list as ghost arrays). in run_proofreader_options every message collected for a part, the shell\'s own ones included, goes through the loop that shifts its offset by the text before the part. Which characters the '
     'regular expressions select is NOT decided.')
 LEVEL_NOTE = 'Regex meaning (isolated letters, accepted patterns, equation placeholders) outside the proof.'
 TECHNIQUE = 'contract-based deductive verification: array-encoded strings, VCs from the real AST, z3'
